@@ -116,6 +116,8 @@ Proof. intros H. do 10 (destruct d as [|d]; [reflexivity|]). lia. Qed.
 Lemma sym_in_eon_b s : str_in [sym_char s] fnc_eon_b = true. Proof. destruct s; reflexivity. Qed.
 Lemma cont_head_b K : cont K -> exists h tl, K = h :: tl /\ str_in [h] fnc_eon_b = true /\ sto_mem h = false.
 Proof. intros [| |]; eexists _, _; (split; [reflexivity|]); split; reflexivity. Qed.
+Lemma stopk_head_b K : stopk K -> exists h tl, K = h :: tl /\ str_in [h] fnc_eon_b = true /\ sto_mem h = false.
+Proof. intros (h & tl & -> & _ & _ & Hin & Hm). exists h, tl. repeat split; assumption. Qed.
 Lemma find_idx_digits_b ds T : forallb (fun d => (d <? 10)%nat) ds = true ->
   (exists h tl, T = h :: tl /\ str_in [h] fnc_eon_b = true) ->
   find_idx (digits_str ds ++ T) fnc_eon_b = length ds.
@@ -134,6 +136,12 @@ Proof.
   - destruct (cont_head_b K HK) as (h & tl & -> & Hh & _). eauto.
 Qed.
 
+Lemma after_tail_head_k after K : stopk K -> exists h tl, after_tail after K = h :: tl /\ str_in [h] fnc_eon_b = true.
+Proof.
+  intros HK. unfold after_tail. destruct after as [s|]; cbn [osym_str app].
+  - eexists _, _. split; [reflexivity|apply sym_in_eon_b].
+  - destruct (stopk_head_b K HK) as (h & tl & -> & Hh & _). eauto.
+Qed.
 Definition mult_closed (st : rstate) (g : graph) (cur : Z) (prev : option Z) (base : option (option Z)) (after : option sym) : rstate :=
   {| s_g := g; s_current := cur; s_branch_anchor := []; s_recipes := []; s_prev_node := prev; s_branching := false;
      s_cycle := s_cycle st; s_pbo := (match after with Some s => Some (sym_ord s) | None => s_pbo st end);
